@@ -1,7 +1,11 @@
 /- Helper lemmas for C02 (syntax): the precedence climber of XrayModel/Syntax.lean. -/
 import XrayModel.Syntax
+import XrayProofs.CoreErrors
 namespace XrayModel.Syntax
 open Generated.Ops
+
+deriving instance DecidableEq for Item
+deriving instance DecidableEq for Tree
 
 section
 variable {α : Type}
@@ -167,5 +171,515 @@ theorem climbInner_mono {f f' : Nat} (hle : f ≤ f') {rhs : Tree α} {p ts x} (
   | refl => exact h
   | step _ ih => exact (climb_mono_step info _).2 _ _ _ _ ih
 
+
+/-- all operators of one precedence associate the same way -/
+def Uniform : Prop := ∀ r1 r2 p a1 a2, info r1 = some (p, a1) → info r2 = some (p, a2) → a1 = a2
+
+/-- the root of `t` (if `t` is not a leaf) and the operator at the head of `ts` (if any): the root does not take it -/
+def LeftOK (t : Tree α) (ts : List (Item α)) : Prop :=
+  ∀ s q b r p a, rootRule t = some s → info s = some (q, b) → headOp ts = some r → info r = some (p, a) →
+    absorbs q p a = false
+
+def RootAbs (p : Nat) (t : Tree α) : Prop :=
+  ∀ s, rootRule t = some s → ∃ q b, info s = some (q, b) ∧ absorbs p q b = true
+
+def StopOuter (m : Nat) (ts : List (Item α)) : Prop :=
+  ∀ r p a, headOp ts = some r → info r = some (p, a) → p < m
+
+def StopInner (p : Nat) (ts : List (Item α)) : Prop :=
+  ∀ r q b, headOp ts = some r → info r = some (q, b) → absorbs p q b = false
+
+theorem absorbs_false_iff (q p : Nat) (a : Assoc) : absorbs q p a = false ↔ p ≤ q ∧ (p = q → a = Assoc.left) := by
+  cases a <;> simp [absorbs] <;> omega
+
+theorem absorbs_true_iff (p q : Nat) (b : Assoc) : absorbs p q b = true ↔ q > p ∨ (q = p ∧ b = Assoc.right) := by
+  cases b <;> simp [absorbs] <;> omega
+
+theorem climb_sound_aux (hu : Uniform info) : ∀ f : Nat,
+    (∀ (lhs : Tree α) m ts t rest, climbRec info f lhs m ts = some (t, rest) → Shaped info lhs → LeftOK info lhs ts →
+        Shaped info t ∧ inorder lhs ++ ts = inorder t ++ rest ∧ StopOuter info m rest ∧
+        ((t = lhs ∧ rest = ts) ∨ ∃ r p a, rootRule t = some r ∧ info r = some (p, a) ∧ p ≥ m)) ∧
+    (∀ (rhs : Tree α) p ts t rest, climbInner info f rhs p ts = some (t, rest) → Shaped info rhs → LeftOK info rhs ts →
+        RootAbs info p rhs →
+        Shaped info t ∧ inorder rhs ++ ts = inorder t ++ rest ∧ StopInner info p rest ∧ RootAbs info p t) := by
+  intro f
+  induction f with
+  | zero => exact ⟨fun _ _ _ _ _ h => by simp [climbRec_zero] at h, fun _ _ _ _ _ h => by simp [climbInner_zero] at h⟩
+  | succ f ih =>
+    refine ⟨?_, ?_⟩
+    · intro lhs m ts t rest h hs hl
+      match ts with
+      | [] =>
+        rw [climbRec_nil] at h; cases h
+        exact ⟨hs, rfl, fun r p a h => by simp [headOp] at h, Or.inl ⟨rfl, rfl⟩⟩
+      | .prim c :: ts =>
+        rw [climbRec_prim] at h; cases h
+        exact ⟨hs, rfl, fun r p a h => by simp [headOp] at h, Or.inl ⟨rfl, rfl⟩⟩
+      | .op r :: rest0 =>
+        cases hi : info r with
+        | none =>
+          rw [climbRec_unknown info _ _ _ _ _ hi] at h; cases h
+          refine ⟨hs, rfl, fun r' p a h h2 => ?_, Or.inl ⟨rfl, rfl⟩⟩
+          simp [headOp] at h; subst h; rw [hi] at h2; cases h2
+        | some pa =>
+          obtain ⟨p, a⟩ := pa
+          by_cases hge : p ≥ m
+          · match rest0 with
+            | [] => rw [climbRec_ge_nil info _ _ _ _ _ _ hi hge] at h; cases h
+            | .op r' :: ts => rw [climbRec_ge_op info _ _ _ _ _ _ _ _ hi hge] at h; cases h
+            | .prim c :: ts =>
+              rw [climbRec_ge info _ _ _ _ _ _ _ _ hi hge] at h
+              obtain ⟨⟨rhs, rest1⟩, hy, hy2⟩ := Option.bind_eq_some_iff.mp h
+              have hin := ih.2 (.leaf c) p ts rhs rest1 hy trivial
+                (fun s q b r p a h => by simp [rootRule] at h) (fun s h => by simp [rootRule] at h)
+              obtain ⟨hsr, hior, hstop, hra⟩ := hin
+              have hsn : Shaped info (.node r lhs rhs) := by
+                refine ⟨p, a, hi, hs, hsr, ?_, hra⟩
+                intro s q b hroot hinfo
+                exact hl s q b r p a hroot hinfo rfl hi
+              have hln : LeftOK info (.node r lhs rhs) rest1 := by
+                intro s q b r2 p2 a2 hroot hinfo hhead hinfo2
+                simp [rootRule] at hroot; subst hroot
+                rw [hi] at hinfo; cases hinfo
+                exact hstop r2 p2 a2 hhead hinfo2
+              obtain ⟨h1, h2, h3, h4⟩ := ih.1 _ m rest1 t rest hy2 hsn hln
+              refine ⟨h1, ?_, h3, Or.inr ?_⟩
+              · rw [← h2]; simp [inorder] at hior ⊢; rw [← hior]
+              · rcases h4 with ⟨ht, _⟩ | h4
+                · subst ht; exact ⟨r, p, a, rfl, hi, hge⟩
+                · exact h4
+          · have hlt : p < m := by omega
+            rw [climbRec_lt info _ _ _ _ _ _ _ hi hlt] at h; cases h
+            refine ⟨hs, rfl, fun r' p' a' h h2 => ?_, Or.inl ⟨rfl, rfl⟩⟩
+            simp [headOp] at h; subst h; rw [hi] at h2; cases h2; exact hlt
+    · intro rhs p ts t rest h hs hl hra
+      match ts with
+      | [] =>
+        rw [climbInner_nil] at h; cases h
+        exact ⟨hs, rfl, fun r q b h => by simp [headOp] at h, hra⟩
+      | .prim c :: ts =>
+        rw [climbInner_prim] at h; cases h
+        exact ⟨hs, rfl, fun r q b h => by simp [headOp] at h, hra⟩
+      | .op r :: rest0 =>
+        cases hi : info r with
+        | none =>
+          rw [climbInner_unknown info _ _ _ _ _ hi] at h; cases h
+          refine ⟨hs, rfl, fun r' q b h h2 => ?_, hra⟩
+          simp [headOp] at h; subst h; rw [hi] at h2; cases h2
+        | some qb =>
+          obtain ⟨q, b⟩ := qb
+          cases ha : absorbs p q b with
+          | false =>
+            rw [climbInner_stop info _ _ _ _ _ _ _ hi ha] at h; cases h
+            refine ⟨hs, rfl, fun r' q' b' h h2 => ?_, hra⟩
+            simp [headOp] at h; subst h; rw [hi] at h2; cases h2; exact ha
+          | true =>
+            rw [climbInner_go info _ _ _ _ _ _ _ hi ha] at h
+            obtain ⟨⟨rhs', ts'⟩, hy, hy2⟩ := Option.bind_eq_some_iff.mp h
+            obtain ⟨g1, g2, g3, g4⟩ := ih.1 rhs q _ rhs' ts' hy hs hl
+            have hl' : LeftOK info rhs' ts' := by
+              rcases g4 with ⟨e1, e2⟩ | ⟨s, ps, as, hroot, hinfo, hps⟩
+              · subst e1; subst e2; exact hl
+              · intro s2 q2 b2 r2 p2 a2 hroot2 hinfo2 hhead hinfo3
+                rw [hroot] at hroot2; cases hroot2
+                rw [hinfo] at hinfo2; cases hinfo2
+                have := g3 r2 p2 a2 hhead hinfo3
+                rw [absorbs_false_iff]; omega
+            have hra' : RootAbs info p rhs' := by
+              rcases g4 with ⟨e1, _⟩ | ⟨s, ps, as, hroot, hinfo, hps⟩
+              · subst e1; exact hra
+              · intro s2 hroot2
+                rw [hroot] at hroot2; cases hroot2
+                refine ⟨ps, as, hinfo, ?_⟩
+                rw [absorbs_true_iff] at ha ⊢
+                rcases ha with ha | ⟨ha1, ha2⟩
+                · left; omega
+                · by_cases hgt : ps > p
+                  · left; exact hgt
+                  · right
+                    have hpq : ps = q := by omega
+                    subst hpq
+                    exact ⟨ha1, by rw [hu s r ps as b hinfo hi]; exact ha2⟩
+            obtain ⟨k1, k2, k3, k4⟩ := ih.2 rhs' p ts' t rest hy2 g1 hl' hra'
+            exact ⟨k1, by rw [g2, k2], k3, k4⟩
+
+
+theorem climb_total_aux : ∀ f : Nat,
+    (∀ (lhs : Tree α) m ts, Alt info ts → ts.length + 1 ≤ f →
+        ∃ t rest, climbRec info f lhs m ts = some (t, rest) ∧ Alt info rest ∧ rest.length ≤ ts.length ∧
+          (∀ r rest0 p a, ts = .op r :: rest0 → info r = some (p, a) → p ≥ m → rest.length + 2 ≤ ts.length)) ∧
+    (∀ (rhs : Tree α) p ts, Alt info ts → ts.length + 2 ≤ f →
+        ∃ t rest, climbInner info f rhs p ts = some (t, rest) ∧ Alt info rest ∧ rest.length ≤ ts.length) := by
+  intro f
+  induction f with
+  | zero => exact ⟨fun _ _ _ _ h => by omega, fun _ _ _ _ h => by omega⟩
+  | succ f ih =>
+    refine ⟨?_, ?_⟩
+    · intro lhs m ts halt hf
+      cases halt with
+      | nil => exact ⟨lhs, [], climbRec_nil info _ _ _, Alt.nil, Nat.le_refl _, fun r rest0 p a h => by cases h⟩
+      | cons r c ts hk ht =>
+        obtain ⟨⟨p, a⟩, hi⟩ := Option.isSome_iff_exists.mp hk
+        by_cases hge : p ≥ m
+        · rw [climbRec_ge info _ _ _ _ _ _ _ _ hi hge]
+          simp only [List.length_cons] at hf
+          obtain ⟨rhs, rest1, e1, a1, l1⟩ := ih.2 (.leaf c) p ts ht (by omega)
+          obtain ⟨t, rest, e2, a2, l2, _⟩ := ih.1 (.node r lhs rhs) m rest1 a1 (by omega)
+          refine ⟨t, rest, by simp [e1, e2], a2, by simp only [List.length_cons]; omega, ?_⟩
+          intro _ _ _ _ _ _ _; simp only [List.length_cons]; omega
+        · have hlt : p < m := by omega
+          refine ⟨lhs, _, climbRec_lt info _ _ _ _ _ _ _ hi hlt, Alt.cons r c ts hk ht, Nat.le_refl _, ?_⟩
+          intro r' rest0 p' a' he hi' hge'
+          cases he; rw [hi] at hi'; cases hi'; omega
+    · intro rhs p ts halt hf
+      cases halt with
+      | nil => exact ⟨rhs, [], climbInner_nil info _ _ _, Alt.nil, Nat.le_refl _⟩
+      | cons r c ts hk ht =>
+        obtain ⟨⟨q, b⟩, hi⟩ := Option.isSome_iff_exists.mp hk
+        cases ha : absorbs p q b with
+        | false => exact ⟨rhs, _, climbInner_stop info _ _ _ _ _ _ _ hi ha, Alt.cons r c ts hk ht, Nat.le_refl _⟩
+        | true =>
+          rw [climbInner_go info _ _ _ _ _ _ _ hi ha]
+          simp only [List.length_cons] at hf
+          obtain ⟨rhs', ts', e1, a1, l1, l1'⟩ := ih.1 rhs q (.op r :: .prim c :: ts) (Alt.cons r c ts hk ht)
+            (by simp only [List.length_cons]; omega)
+          have l1'' := l1' r _ q b rfl hi (Nat.le_refl _)
+          simp only [List.length_cons] at l1''
+          obtain ⟨t, rest, e2, a2, l2⟩ := ih.2 rhs' p ts' a1 (by omega)
+          exact ⟨t, rest, by simp [e1, e2], a2, by simp only [List.length_cons]; omega⟩
+
+theorem alt_stop_nil {ts : List (Item α)} (ha : Alt info ts) (hs : StopOuter info 0 ts) : ts = [] := by
+  cases ha with
+  | nil => rfl
+  | cons r c ts hk _ =>
+    obtain ⟨⟨p, a⟩, hi⟩ := Option.isSome_iff_exists.mp hk
+    have := hs r p a rfl hi
+    omega
+
+/-- soundness and totality of `climb` on well-formed input -/
+theorem climb_ok (hu : Uniform info) (a : α) (ts : List (Item α)) (halt : Alt info ts) :
+    ∃ t, climb info (.prim a :: ts) = some t ∧ inorder t = .prim a :: ts ∧ Shaped info t := by
+  obtain ⟨t, rest, e, ar, _, _⟩ := (climb_total_aux info (ts.length + 2)).1 (.leaf a) 0 ts halt (by omega)
+  obtain ⟨h1, h2, h3, _⟩ := (climb_sound_aux info hu _).1 _ _ _ _ _ e trivial
+    (fun s q b r p a h => by simp [rootRule] at h)
+  have : rest = [] := alt_stop_nil info ar h3
+  subst this
+  refine ⟨t, by simp [climb, e], ?_, h1⟩
+  simpa [inorder] using h2.symm
+
+
+/-! ### completeness: a tree that obeys the table is what `climb` returns on its in-order listing -/
+
+def RecR (lhs : Tree α) (m : Nat) (ts : List (Item α)) (res : Tree α × List (Item α)) : Prop :=
+  ∃ f, climbRec info f lhs m ts = some res
+
+def InnerR (rhs : Tree α) (p : Nat) (ts : List (Item α)) (res : Tree α × List (Item α)) : Prop :=
+  ∃ f, climbInner info f rhs p ts = some res
+
+theorem recR_step {lhs rhs : Tree α} {m p : Nat} {a : Assoc} {r : String} {c : α} {ts ts' res}
+    (hi : info r = some (p, a)) (hge : p ≥ m) (h1 : InnerR info (.leaf c) p ts (rhs, ts'))
+    (h2 : RecR info (.node r lhs rhs) m ts' res) : RecR info lhs m (.op r :: .prim c :: ts) res := by
+  obtain ⟨f1, h1⟩ := h1
+  obtain ⟨f2, h2⟩ := h2
+  refine ⟨max f1 f2 + 1, ?_⟩
+  rw [climbRec_ge info _ _ _ _ _ _ _ _ hi hge, climbInner_mono info (Nat.le_max_left f1 f2) h1]
+  exact climbRec_mono info (Nat.le_max_right f1 f2) h2
+
+theorem innerR_step {rhs rhs' : Tree α} {p q : Nat} {b : Assoc} {r : String} {ts ts' res}
+    (hi : info r = some (q, b)) (ha : absorbs p q b = true) (h1 : RecR info rhs q (.op r :: ts) (rhs', ts'))
+    (h2 : InnerR info rhs' p ts' res) : InnerR info rhs p (.op r :: ts) res := by
+  obtain ⟨f1, h1⟩ := h1
+  obtain ⟨f2, h2⟩ := h2
+  refine ⟨max f1 f2 + 1, ?_⟩
+  rw [climbInner_go info _ _ _ _ _ _ _ hi ha, climbRec_mono info (Nat.le_max_left f1 f2) h1]
+  exact climbInner_mono info (Nat.le_max_right f1 f2) h2
+
+theorem innerR_stop {t : Tree α} {p : Nat} {X : List (Item α)} (h : StopInner info p X) : InnerR info t p X (t, X) := by
+  refine ⟨1, ?_⟩
+  match X with
+  | [] => exact climbInner_nil info _ _ _
+  | .prim c :: X => exact climbInner_prim info _ _ _ _ _
+  | .op r :: X =>
+    cases hi : info r with
+    | none => exact climbInner_unknown info _ _ _ _ _ hi
+    | some qb => exact climbInner_stop info _ _ _ _ _ _ _ hi (h r qb.1 qb.2 rfl hi)
+
+theorem recR_stop {t : Tree α} {m : Nat} {X : List (Item α)} (h : StopOuter info m X) : RecR info t m X (t, X) := by
+  refine ⟨1, ?_⟩
+  match X with
+  | [] => exact climbRec_nil info _ _ _
+  | .prim c :: X => exact climbRec_prim info _ _ _ _ _
+  | .op r :: X =>
+    cases hi : info r with
+    | none => exact climbRec_unknown info _ _ _ _ _ hi
+    | some pa => exact climbRec_lt info _ _ _ _ _ _ _ hi (h r pa.1 pa.2 rfl hi)
+
+theorem innerR_inv {t : Tree α} {p q : Nat} {b : Assoc} {r : String} {ts res}
+    (h : InnerR info t p (.op r :: ts) res) (hi : info r = some (q, b)) (ha : absorbs p q b = true) :
+    ∃ res2, RecR info t q (.op r :: ts) res2 ∧ InnerR info res2.1 p res2.2 res := by
+  obtain ⟨f, h⟩ := h
+  cases f with
+  | zero => simp [climbInner_zero] at h
+  | succ f =>
+    rw [climbInner_go info _ _ _ _ _ _ _ hi ha] at h
+    obtain ⟨y, hy, hy2⟩ := Option.bind_eq_some_iff.mp h
+    exact ⟨y, ⟨f, hy⟩, ⟨f, hy2⟩⟩
+
+/-- the head of `X` is not taken by any operator on the right spine of the tree -/
+def RS : Tree α → List (Item α) → Prop
+  | .leaf _, _ => True
+  | .node s _ rt, X => (∀ q b, info s = some (q, b) → StopInner info q X) ∧ RS rt X
+
+def LeftAbs (p : Nat) : Tree α → Prop
+  | .leaf _ => True
+  | .node s l _ => (∃ q b, info s = some (q, b) ∧ absorbs p q b = true) ∧ LeftAbs p l
+
+def LeftGe (m : Nat) : Tree α → Prop
+  | .leaf _ => True
+  | .node s l _ => (∃ q b, info s = some (q, b) ∧ q ≥ m) ∧ LeftGe m l
+
+theorem shaped_rs {t : Tree α} {r : String} {p : Nat} {a : Assoc} (X : List (Item α)) (hi : info r = some (p, a))
+    (hs : Shaped info t) (h : ∀ s q b, rootRule t = some s → info s = some (q, b) → absorbs q p a = false) :
+    RS info t (.op r :: X) := by
+  induction t with
+  | leaf c => trivial
+  | node s l rt _ ihr =>
+    obtain ⟨q, b, his, _, hsr, _, hright⟩ := hs
+    refine ⟨?_, ihr hsr ?_⟩
+    · intro q' b' his' r' p' a' hh hi'
+      simp [headOp] at hh; subst hh
+      rw [hi] at hi'; cases hi'
+      exact h s q' b' rfl his'
+    · intro s2 q2 b2 hroot hi2
+      obtain ⟨q2', b2', hi2', hab⟩ := hright s2 hroot
+      rw [hi2] at hi2'; cases hi2'
+      have h0 := h s q b rfl his
+      rw [absorbs_false_iff] at h0 ⊢
+      rw [absorbs_true_iff] at hab
+      refine ⟨by omega, fun e => ?_⟩
+      rcases hab with hgt | ⟨e1, _⟩
+      · exfalso; omega
+      · exact h0.2 (by omega)
+
+theorem leftAbs_of_root {t : Tree α} {p : Nat} (hs : Shaped info t) (h : RootAbs info p t) : LeftAbs info p t := by
+  induction t with
+  | leaf c => trivial
+  | node s l rt ihl _ =>
+    obtain ⟨q, b, his, hsl, _, hleft, _⟩ := hs
+    obtain ⟨q', b', his', hab⟩ := h s rfl
+    rw [his] at his'; cases his'
+    refine ⟨⟨q, b, his, hab⟩, ihl hsl ?_⟩
+    intro s2 hroot
+    cases l with
+    | leaf c => simp [rootRule] at hroot
+    | node s2' l2 r2 =>
+      simp [rootRule] at hroot; subst hroot
+      obtain ⟨q2, b2, hi2, _⟩ := hsl
+      refine ⟨q2, b2, hi2, ?_⟩
+      have h0 := hleft s2' q2 b2 rfl hi2
+      rw [absorbs_false_iff] at h0
+      rw [absorbs_true_iff] at hab ⊢
+      rcases hab with hab | ⟨e1, e2⟩
+      · left; omega
+      · by_cases hq : q2 > p
+        · left; exact hq
+        · exfalso
+          have : q = q2 := by omega
+          have := h0.2 this
+          rw [e2] at this; cases this
+
+theorem rs_nil (t : Tree α) : RS info t [] := by
+  induction t with
+  | leaf c => trivial
+  | node s l rt _ ihr => exact ⟨fun q b _ r' q' b' h => by simp [headOp] at h, ihr⟩
+
+theorem leftGe_zero {t : Tree α} (hs : Shaped info t) : LeftGe info 0 t := by
+  induction t with
+  | leaf c => trivial
+  | node s l rt ihl _ =>
+    obtain ⟨q, b, his, hsl, _, _, _⟩ := hs
+    exact ⟨⟨q, b, his, Nat.zero_le _⟩, ihl hsl⟩
+
+theorem climb_complete_aux (hu : Uniform info) (t : Tree α) (hs : Shaped info t) :
+    (∀ p X res, LeftAbs info p t → RS info t X → InnerR info t p X res →
+        InnerR info (.leaf (leftmost t)) p (tailOf t ++ X) res) ∧
+    (∀ m X res, LeftGe info m t → RS info t X → RecR info t m X res →
+        RecR info (.leaf (leftmost t)) m (tailOf t ++ X) res) := by
+  induction t with
+  | leaf c => exact ⟨fun p X res _ _ h => by simpa [tailOf, leftmost] using h, fun m X res _ _ h => by simpa [tailOf, leftmost] using h⟩
+  | node s l rt ihl ihr =>
+    have hs' := hs
+    obtain ⟨q, b, hi, hsl, hsr, hleft, hright⟩ := hs'
+    -- the right operand, once its first primary is read, is completed by the inner loop at level q
+    have hI : ∀ X, RS info rt X → StopInner info q X →
+        InnerR info (.leaf (leftmost rt)) q (tailOf rt ++ X) (rt, X) := by
+      intro X hrs hst
+      exact (ihr hsr).1 q X (rt, X) (leftAbs_of_root info hsr hright) hrs (innerR_stop info hst)
+    have hlist : ∀ X, tailOf (.node s l rt) ++ X = tailOf l ++ (.op s :: .prim (leftmost rt) :: (tailOf rt ++ X)) := by
+      intro X; simp [tailOf, inorder_eq rt]
+    refine ⟨?_, ?_⟩
+    · intro p X res hLA hRS hInner
+      obtain ⟨⟨q', b', hi', ha⟩, hLAl⟩ := hLA
+      rw [hi] at hi'; cases hi'
+      obtain ⟨hstq, hRSr⟩ := hRS
+      have hstq := hstq q b hi
+      rw [hlist, leftmost]
+      apply (ihl hsl).1 p _ res hLAl (shaped_rs info _ hi hsl hleft)
+      -- what the level-q call makes of `node s l rt` and X, and how the inner loop at level p goes on
+      have claim : ∃ res1, RecR info (.node s l rt) q X res1 ∧ InnerR info res1.1 p res1.2 res := by
+        match X, hstq, hInner with
+        | [], _, hInner => exact ⟨(_, []), recR_stop info (fun r p a h => by simp [headOp] at h), hInner⟩
+        | .prim c :: X', _, hInner => exact ⟨(_, _), recR_stop info (fun r p a h => by simp [headOp] at h), hInner⟩
+        | .op r' :: X', hstq, hInner =>
+          cases hi' : info r' with
+          | none =>
+            refine ⟨(_, _), recR_stop info (fun r p a h h2 => ?_), hInner⟩
+            simp [headOp] at h; subst h; rw [hi'] at h2; cases h2
+          | some pa =>
+            obtain ⟨p', a'⟩ := pa
+            by_cases hlt : p' < q
+            · refine ⟨(_, _), recR_stop info (fun r p a h h2 => ?_), hInner⟩
+              simp [headOp] at h; subst h; rw [hi'] at h2; cases h2; exact hlt
+            · have h0 := hstq r' p' a' rfl hi'
+              rw [absorbs_false_iff] at h0
+              have hpq : p' = q := by omega
+              subst hpq
+              have ha' := h0.2 rfl
+              have ha2 := ha
+              rw [absorbs_true_iff] at ha2
+              rcases ha2 with hgt | ⟨_, hb⟩
+              · have : absorbs p p' a' = true := by rw [absorbs_true_iff]; left; exact hgt
+                exact innerR_inv info hInner hi' this
+              · exfalso
+                have := hu s r' p' b a' hi hi'
+                rw [hb, ha'] at this; cases this
+      obtain ⟨res1, hrec, hinn⟩ := claim
+      exact innerR_step info hi ha (recR_step info hi (Nat.le_refl _) (hI X hRSr hstq) hrec) hinn
+    · intro m X res hGe hRS hRec
+      obtain ⟨⟨q', b', hi', hge⟩, hGel⟩ := hGe
+      rw [hi] at hi'; cases hi'
+      obtain ⟨hstq, hRSr⟩ := hRS
+      have hstq := hstq q b hi
+      rw [hlist, leftmost]
+      apply (ihl hsl).2 m _ res hGel (shaped_rs info _ hi hsl hleft)
+      exact recR_step info hi hge (hI X hRSr hstq) hRec
+
+theorem alt_append {xs ys : List (Item α)} (hx : Alt info xs) (hy : Alt info ys) : Alt info (xs ++ ys) := by
+  induction hx with
+  | nil => simpa using hy
+  | cons r a ts hk _ ih => exact Alt.cons r a _ hk ih
+
+theorem alt_tail {t : Tree α} (hs : Shaped info t) : Alt info (tailOf t) := by
+  induction t with
+  | leaf c => exact Alt.nil
+  | node s l rt ihl ihr =>
+    obtain ⟨q, b, hi, hsl, hsr, _, _⟩ := hs
+    simp only [tailOf, inorder_eq rt]
+    exact alt_append info (ihl hsl) (Alt.cons s _ _ (by simp [hi]) (ihr hsr))
+
+/-- `climb` inverts the in-order listing on every tree that obeys the table -/
+theorem climb_complete (hu : Uniform info) (t : Tree α) (hs : Shaped info t) : climb info (inorder t) = some t := by
+  rw [inorder_eq]
+  obtain ⟨t', rest, e, _, _, _⟩ := (climb_total_aux info ((tailOf t).length + 2)).1 (.leaf (leftmost t)) 0 (tailOf t)
+    (alt_tail info hs) (by omega)
+  have hL := (climb_complete_aux info hu t hs).2 0 [] (t, []) (leftGe_zero info hs) (rs_nil info t)
+    ⟨1, climbRec_nil info _ _ _⟩
+  obtain ⟨f, hf⟩ := hL
+  simp only [List.append_nil] at hf
+  have e1 := climbRec_mono info (Nat.le_max_left f ((tailOf t).length + 2)) hf
+  have e2 := climbRec_mono info (Nat.le_max_right f ((tailOf t).length + 2)) e
+  rw [e1] at e2
+  cases e2
+  simp [climb, e]
+
 end
+
+/-! ### the generated table -/
+
+theorem findInLevel_mem {r : String} {lvl : List (String × Assoc)} {a : Assoc} (h : findInLevel r lvl = some a) :
+    (r, a) ∈ lvl := by
+  induction lvl with
+  | nil => simp [findInLevel] at h
+  | cons x rest ih =>
+    obtain ⟨r', a'⟩ := x
+    simp only [findInLevel] at h
+    by_cases e : r = r'
+    · simp [e] at h; subst h; subst e; simp
+    · simp [e] at h; exact List.mem_cons_of_mem _ (ih h)
+
+theorem infoIn_ge {r : String} {L : List (List (String × Assoc))} : ∀ {p q : Nat} {a : Assoc},
+    infoIn r p L = some (q, a) → q ≥ p := by
+  induction L with
+  | nil => intro p q a h; simp [infoIn] at h
+  | cons lvl rest ih =>
+    intro p q a h
+    simp only [infoIn] at h
+    cases hf : findInLevel r lvl with
+    | some a' => simp [hf] at h; omega
+    | none => simp [hf] at h; have := ih h; omega
+
+theorem infoIn_uniform {L : List (List (String × Assoc))}
+    (hL : ∀ lvl ∈ L, ∀ x ∈ lvl, ∀ y ∈ lvl, x.2 = y.2) :
+    ∀ {r1 r2 : String} {p q : Nat} {a1 a2 : Assoc},
+      infoIn r1 p L = some (q, a1) → infoIn r2 p L = some (q, a2) → a1 = a2 := by
+  induction L with
+  | nil => intro r1 r2 p q a1 a2 h; simp [infoIn] at h
+  | cons lvl rest ih =>
+    intro r1 r2 p q a1 a2 h1 h2
+    simp only [infoIn] at h1 h2
+    cases hf1 : findInLevel r1 lvl with
+    | some b1 =>
+      cases hf2 : findInLevel r2 lvl with
+      | some b2 =>
+        simp [hf1] at h1; simp [hf2] at h2
+        have := hL lvl (by simp) _ (findInLevel_mem hf1) _ (findInLevel_mem hf2)
+        simp at this; rw [← h1.2, ← h2.2]; exact this
+      | none =>
+        simp [hf1] at h1; simp [hf2] at h2
+        have := infoIn_ge h2; omega
+    | none =>
+      cases hf2 : findInLevel r2 lvl with
+      | some b2 =>
+        simp [hf1] at h1; simp [hf2] at h2
+        have := infoIn_ge h1; omega
+      | none =>
+        simp [hf1] at h1; simp [hf2] at h2
+        exact ih (fun lvl hl => hL lvl (List.mem_cons_of_mem _ hl)) h1 h2
+
+/-- the table of parser.rs: operators of one level associate the same way (a closed fact about the generated table) -/
+theorem climberInfo_uniform : Uniform climberInfo := by
+  intro r1 r2 p a1 a2 h1 h2
+  exact infoIn_uniform (by decide) h1 h2
+
 end XrayModel.Syntax
+
+/-! ### the core evaluator: `evalList` delivers values only through a left-to-right chain of single evaluations -/
+
+namespace XrayModel.Core
+
+theorem evalList_ok_seqVals (n : Nat) (cfg : Cfg) (fr : Frame) (es : List Expr) (st st' : St) (vs : List Val)
+    (h : evalList n cfg fr es st = (.ok vs, st')) : SeqVals cfg fr n es st vs st' := by
+  induction n generalizing es st st' vs with
+  | zero => rw [evalList] at h; cases h
+  | succ n ih =>
+    cases es with
+    | nil => rw [evalList] at h; cases h; exact SeqVals.nil _ _
+    | cons e rest =>
+      simp only [evalList] at h
+      split at h
+      · simp at h
+      · rename_i v st1 hv hne
+        split at h
+        · rename_i vs1 st2 hrest
+          simp only [Prod.mk.injEq, Except.ok.injEq] at h
+          obtain ⟨h1, h2⟩ := h
+          subst h1; subst h2
+          refine SeqVals.cons (by assumption) ?_ (ih rest st1 _ vs1 hrest)
+          cases v <;> simp_all [Val.isErr]
+        · rename_i r hr
+          cases r with
+          | mk a b => cases a <;> simp_all
+      · simp at h
+      · simp at h
+
+end XrayModel.Core
